@@ -323,6 +323,23 @@ impl SourceView {
     }
 }
 
+#[cfg(sourcemap_verif)]
+impl SourceView {
+    /// Verification hook: the progress counter and the `(offset, len)` of every cached line.
+    #[doc(hidden)]
+    pub fn verif_index_state(&self) -> (usize, Vec<(usize, usize)>) {
+        let base = self.source.as_ptr() as usize;
+        let lines = self.lines.lock().unwrap();
+        (
+            self.processed_until.load(Ordering::Relaxed),
+            lines
+                .iter()
+                .map(|l| (l.as_ptr() as usize - base, l.len()))
+                .collect(),
+        )
+    }
+}
+
 #[test]
 #[allow(clippy::cognitive_complexity)]
 fn test_minified_source_view() {
